@@ -146,6 +146,42 @@ Section Traverse.
       end
     end.
 
+  Lemma decodeValue_S : forall f d md s, decodeValue (S f) d md s =
+      match native_value s with
+      | KEof => (ErrEOF, md)
+      | KErr e => (e, md)
+      | KString r | KScalar r => (Ok r, md)
+      | KArray r =>
+        if (limit <=? d)%nat then (ErrRecurse, md) else
+        let d1 := S d in
+        let md1 := Nat.max md d1 in
+        match lspace r with
+        | [] => (ErrEOF, md1)
+        | c :: r1 => if c =? c_rbrack then (Ok r1, md1) else arrayElems f d1 md1 (c :: r1)
+        end
+      | KObject r =>
+        if (limit <=? d)%nat then (ErrRecurse, md) else
+        let d1 := S d in
+        let md1 := Nat.max md d1 in
+        match lspace r with
+        | [] => (ErrEOF, md1)
+        | c :: r1 => if c =? c_rbrace then (Ok r1, md1) else objectPairs f d1 md1 (c :: r1)
+        end
+      end.
+  Proof. reflexivity. Qed.
+
+  Lemma arrayElems_S : forall f d md s, arrayElems (S f) d md s =
+      match decodeValue f d md s with
+      | (Ok r, md1) =>
+        match lspace r with
+        | [] => (ErrEOF, md1)
+        | c :: r1 => if c =? c_comma then arrayElems f d md1 r1
+                     else if c =? c_rbrack then (Ok r1, md1) else (ErrInvalid, md1)
+        end
+      | e => e
+      end.
+  Proof. reflexivity. Qed.
+
   (* the counter never exceeds the limit: the Go stack holds at most `limit` decodeArray/decodeObject frames *)
   Lemma depth_bounded : forall fuel,
     (forall d md s, (d <= limit)%nat -> (md <= limit)%nat -> (snd (decodeValue fuel d md s) <= limit)%nat) /\
@@ -222,8 +258,8 @@ Proof.
   induction n as [|n IH]; intros fuel d md rest Hf Hn Hlim; [lia|].
   destruct fuel as [|f]; [lia|].
   rewrite nest_unfold.
-  cbn [decodeValue]. rewrite native_value_open.
-  replace (limit <=? d)%nat with false by (symmetry; apply Nat.leb_gt; lia).
+  rewrite decodeValue_S, native_value_open.
+  destruct (limit <=? d)%nat eqn:Elim; [apply Nat.leb_le in Elim; lia|clear Elim].
   destruct n as [|n'].
   - (* innermost: "[]" *)
     cbn [opens closes repeat app]. rewrite lspace_rbrack.
@@ -232,7 +268,7 @@ Proof.
   - rewrite opens_head. rewrite lspace_lbrack.
     replace (c_lbrack =? c_rbrack) with false by reflexivity.
     destruct f as [|f']; [lia|].
-    cbn [arrayElems].
+    rewrite arrayElems_S.
     rewrite <- opens_head.
     rewrite (IH f' (S d) (Nat.max md (S d)) (c_rbrack :: rest)) by lia.
     rewrite lspace_rbrack.
@@ -241,60 +277,97 @@ Proof.
     f_equal. lia.
 Qed.
 
-(* the refutation of "recursion depth is bounded": for every n there is an input of length 2n that
-   ast.Preorder accepts with n nested Go frames *)
-Theorem preorder_depth_unbounded : forall n, (1 <= n)%nat ->
-  exists s, length s = (2 * n)%nat /\ preorder s = (Ok [], n).
-Proof.
-  intros n Hn. exists (opens n ++ closes n). split.
-  - unfold opens, closes. rewrite app_length, !repeat_length. lia.
-  - unfold preorder.
-    replace (opens n ++ closes n) with (opens n ++ closes n ++ []) by (rewrite app_nil_r; reflexivity).
-    rewrite nested_arrays.
-    + f_equal.
-    + rewrite app_nil_r. unfold opens, closes. rewrite app_length, !repeat_length. lia.
-    + exact Hn.
-Qed.
-
-(* unterminated nesting (no closers at all) is rejected only after descending all the way *)
+(* unterminated nesting (no closers at all): rejected with EOF after descending all the way, when it fits the limit *)
 Lemma open_arrays : forall n fuel d md,
-  (2 * n + 1 <= fuel)%nat -> (d <= md)%nat ->
-  decodeValue fuel d md (opens n) = (ErrEOF, Nat.max md (d + n)).
+  (2 * n + 1 <= fuel)%nat -> (d <= md)%nat -> (d + n <= limit)%nat ->
+  decodeValue limit fuel d md (opens n) = (ErrEOF, Nat.max md (d + n)).
 Proof.
-  induction n as [|n IH]; intros fuel d md Hf Hd.
+  induction n as [|n IH]; intros fuel d md Hf Hd Hlim.
   - destruct fuel; [lia|]. cbn. f_equal. lia.
   - destruct fuel as [|f]; [lia|].
     change (opens (S n)) with (c_lbrack :: opens n).
-    cbn [decodeValue]. rewrite native_value_open.
+    rewrite decodeValue_S, native_value_open.
+    destruct (limit <=? d)%nat eqn:Elim; [apply Nat.leb_le in Elim; lia|clear Elim].
     destruct n as [|n'].
     + cbn. f_equal. lia.
     + change (opens (S n')) with (c_lbrack :: opens n') at 1. rewrite lspace_lbrack.
       replace (c_lbrack =? c_rbrack) with false by reflexivity.
       destruct f as [|f']; [lia|].
-      cbn [arrayElems]. change (c_lbrack :: opens n') with (opens (S n')).
+      rewrite arrayElems_S. change (c_lbrack :: opens n') with (opens (S n')).
       rewrite (IH f' (S d) (Nat.max md (S d))) by lia.
       f_equal. lia.
 Qed.
 
-Theorem preorder_open_depth_unbounded : forall n,
-  preorder (opens n) = (ErrEOF, n).
+(* nesting deeper than the limit is rejected with ERR_RECURSE_EXCEED_MAX as soon as the counter reaches the limit *)
+Lemma too_deep : forall k d n fuel md X,
+  (limit - d = k)%nat -> (d <= limit)%nat -> (limit < d + n)%nat -> (d <= md)%nat -> (2 * k + 1 <= fuel)%nat ->
+  decodeValue limit fuel d md (opens n ++ X) = (ErrRecurse, Nat.max md limit).
 Proof.
-  intro n. unfold preorder. rewrite open_arrays.
+  induction k as [|k IH]; intros d n fuel md X Hk Hd Hn Hm Hf.
+  - assert (d = limit) by lia. subst d.
+    destruct n as [|n]; [lia|]. destruct fuel as [|f]; [lia|].
+    rewrite opens_head. rewrite decodeValue_S, native_value_open.
+    destruct (limit <=? limit)%nat eqn:Elim; [clear Elim|apply Nat.leb_gt in Elim; lia].
+    f_equal. lia.
+  - destruct n as [|n]; [lia|]. destruct n as [|n]; [lia|].
+    destruct fuel as [|f]; [lia|].
+    rewrite opens_head. rewrite decodeValue_S, native_value_open.
+    destruct (limit <=? d)%nat eqn:Elim; [apply Nat.leb_le in Elim; lia|clear Elim].
+    rewrite opens_head. rewrite lspace_lbrack.
+    replace (c_lbrack =? c_rbrack) with false by reflexivity.
+    destruct f as [|f']; [lia|].
+    rewrite arrayElems_S. rewrite <- opens_head.
+    rewrite (IH (S d) (S n) f' (Nat.max md (S d)) X) by lia.
+    f_equal. lia.
+Qed.
+End Family.
+
+(* up to the limit, the depth used is exactly the nesting depth of the input ... *)
+Theorem preorder_nested_upto_limit : forall limit n, (1 <= n <= limit)%nat ->
+  preorder limit (opens n ++ closes n) = (Ok [], n).
+Proof.
+  intros limit n Hn. unfold preorder.
+  replace (opens n ++ closes n) with (opens n ++ closes n ++ []) by (rewrite app_nil_r; reflexivity).
+  rewrite nested_arrays.
   - f_equal.
-  - unfold opens. rewrite repeat_length. lia.
+  - rewrite app_nil_r. unfold opens, closes. rewrite app_length, !repeat_length. lia.
+  - lia.
   - lia.
 Qed.
 
+Theorem preorder_open_upto_limit : forall limit n, (n <= limit)%nat -> preorder limit (opens n) = (ErrEOF, n).
+Proof.
+  intros limit n Hn. unfold preorder. rewrite open_arrays.
+  - f_equal.
+  - unfold opens. rewrite repeat_length. lia.
+  - lia.
+  - lia.
+Qed.
+
+(* ... and anything deeper (closed or not, whatever follows) is refused with an ordinary error after exactly `limit` frames *)
+Theorem preorder_beyond_limit_rejected : forall limit n X, (limit < n)%nat ->
+  preorder limit (opens n ++ X) = (ErrRecurse, limit).
+Proof.
+  intros limit n X Hn. unfold preorder.
+  rewrite (too_deep limit limit 0 n _ 0 X); try lia.
+  - f_equal.
+  - rewrite app_length. unfold opens. rewrite repeat_length. lia.
+Qed.
+
 Example preorder_examples :
-  preorder [91; 49; 44; 123; 34; 97; 34; 58; 91; 93; 125; 93] = (Ok [], 3%nat)        (* [1,{"a":[]}] *)
-  /\ preorder [123; 34; 97; 34; 32; 49; 125] = (ErrInvalid, 1%nat)                    (* {"a" 1} *)
-  /\ preorder [91; 91; 49] = (ErrEOF, 2%nat).                                          (* [[1 *)
+  preorder 4096 [91; 49; 44; 123; 34; 97; 34; 58; 91; 93; 125; 93] = (Ok [], 3%nat)        (* [1,{"a":[]}] *)
+  /\ preorder 4096 [123; 34; 97; 34; 32; 49; 125] = (ErrInvalid, 1%nat)                    (* {"a" 1} *)
+  /\ preorder 4096 [91; 91; 49] = (ErrEOF, 2%nat)                                          (* [[1 *)
+  /\ preorder 2 [91; 91; 91; 93; 93; 93] = (ErrRecurse, 2%nat).                            (* [[[]]] with limit 2 *)
 Proof. vm_compute. repeat split; reflexivity. Qed.
 
 (* ---------------------------------------------------------------- traversals of a loaded tree *)
 
 (* Node.Interface / InterfaceUseNumber / MarshalJSON (encodeInterface) / SortKeys(recurse) / LoadAll all recurse once per
-   container level of the loaded tree, without a limit *)
+   container level of the loaded tree, without a limit of their own: frames = height of the tree.  Every tree these are
+   applied to comes from a document that passed the depth-limited native skipper (NewRaw, Get, Searcher, and since fix
+   62dcdd9 Loads) or the depth-limited Parse, so its height is <= MAX_RECURSE; trees built by hand with NewArray/NewObject
+   can be arbitrarily high (tree_walk_depth_unbounded) - that is the caller's data structure, not an input document. *)
 Inductive jv := JScalar | JArr (l : list jv) | JObj (l : list jv).
 
 Fixpoint height (t : jv) : nat :=
